@@ -306,6 +306,9 @@ func verifyFunctionOpt(P *Program, fn *ssa.Function, props []string, opt func(*E
 			break
 		}
 		e.cover(o.st, fn, "cover.return")
+		last := e.obls[len(e.obls)-1]
+		st := o.st
+		last.retVals, last.retSt = o.ret, &st
 	}
 	return res
 }
@@ -408,6 +411,7 @@ func (e *Exec) freshVal(T types.Type, what string) Val {
 
 // applyContract: assert requires, havoc assigns, assume ensures (DESIGN Appendix B, Call).
 func (e *Exec) applyContract(fr *Frame, st State, fn *ssa.Function, ct *FuncContract, args []Val, pos token.Pos) []Outcome {
+	e.abstractions++
 	pre := st
 	for _, a := range args {
 		for _, t := range a {
@@ -689,6 +693,9 @@ func (e *Exec) enterLoopHeader(fr *Frame, st State, b *ssa.BasicBlock, prev *ssa
 		lc = ct.Loops[ord]
 	}
 	back := prev != nil && isBackEdge(prev, b)
+	if lc != nil {
+		e.abstractions++
+	}
 	if e.noCut {
 		lc = nil
 		fr.visits[b]++
